@@ -20,11 +20,29 @@ theorem rawInd_inverts_merge (maps : List (List Nat)) (h : ∀ m ∈ maps, m ≠
     exportRawInd (mergeChannelMaps maps) (channelProbes maps) = (maps.flatten).map Int.ofNat :=
   Lemmas.rawInd_inverts_merge maps h
 
-/-- Listed channels: nearest channels on the same probe as the peak channel, peak first. -/
+/-- Listed channels: nearest channels on the same probe as the peak channel, peak first.  WHICH channel `peak` is:
+`listed_channels_of_waveform` below. -/
 theorem nearest_ok (pos : List (Rat × Rat)) (probes : List Nat) (peak ncw : Nat)
     (hp : peak < pos.length) :
     nearestOK pos probes peak ncw (nearestSameProbe pos probes peak ncw) = true :=
   Lemmas.nearest_ok pos probes peak ncw hp
+
+/-- … where "the peak channel" of template / cluster `t` is THE peak channel (first channel of largest peak-to-peak,
+C09 `IsPeakChannel`) of the STORED waveform `wfs[t]` — `model.templates_channels` / `model.clusters_channels`
+(`_channels`, model.py:1289-1299, on `sparse_templates.data` / `sparse_clusters.data`, i.e. the WHITENED template), the
+source the property's anchors name.  The statement does not say "of the exported waveform", and under a whitening
+matrix that is far from a multiple of the identity the two differ (`wmi = diag(1, 8)`, stored template
+`[[2, 1], [-2, -1], [0, 0]]`: listed channels `[0, 1]`, depth of channel 0, while the exported unwhitened waveform
+`[[2, 8], [-2, -8], [0, 0]]` and `templates.amps` peak on channel 1).  Reading adopted here: the model's own peak
+channel, as for C09; `clusters.channels`, `clusters.depths` and `clusters.peakToTrough` use the same channel. -/
+theorem listed_channels_of_waveform (wfs : List Mat) (pos : List (Rat × Rat)) (probes : List Nat)
+    (ncw t ns nc : Nat) (ht : t < wfs.length) (hrect : Rect (wfs.getD t []) ns nc) (hns : 0 < ns) (hnc : 0 < nc)
+    (hpos : pos.length = nc) :
+    IsPeakChannel (wfs.getD t []) nc ((peakChannels wfs).getD t 0) ∧
+    nearestOK pos probes ((peakChannels wfs).getD t 0) ncw
+      (nearestSameProbe pos probes ((peakChannels wfs).getD t 0) ncw) = true :=
+  ⟨(C09.Lemmas.peakChannels_spec wfs t ns nc ht hrect hns hnc).1,
+   Lemmas.nearest_ok pos probes _ ncw (hpos ▸ (C09.Lemmas.peakChannels_spec wfs t ns nc ht hrect hns hnc).1.1)⟩
 
 /-- Exported waveforms are the (unwhitened, amplitude-rescaled) waveforms on the listed channels. -/
 theorem waveforms_eq (wfs : List Mat) (inds : List (List Nat))
@@ -190,6 +208,12 @@ theorem nearest_peak_first (pos : List (Rat × Rat)) (probes : List Nat) (peak n
 example : (nearestSameProbe [(0, 0), (0, 20), (10, 10), (0, 40), (5, 5)] [0, 0, 1, 0, 1] 1 4).head? = some 1 :=
   nearest_peak_first _ _ 1 4 (by decide) (by decide) (by decide +kernel)
 example : nearestOK [(0, 0), (0, 0)] [0, 0] 1 2 [0, 1] = true := by decide +kernel   -- co-located: not determined
+-- the audit's whitened template: peak channel 0 on the stored waveform, listed channels [0, 1]
+example : nearestSameProbe [(0, 0), (0, 20)] [0, 0] ((peakChannels [[[2, 1], [-2, -1], [0, 0]]]).getD 0 0) 2 = [0, 1] := by
+  decide +kernel
+example : IsPeakChannel ([[[2, 1], [-2, -1], [0, 0]]].getD 0 []) 2 ((peakChannels [[[2, 1], [-2, -1], [0, 0]]]).getD 0 0) :=
+  (listed_channels_of_waveform [[[2, 1], [-2, -1], [0, 0]]] [(0, 0), (0, 20)] [0, 0] 2 0 3 2 (by decide)
+    ⟨by decide, by decide⟩ (by decide) (by decide) (by decide)).1
 section Instances
 def exT : Data := ⟨[[[1, 0], [-1, 2]], [[0, 3], [0, -3]], [[5, 5], [1, 1]]], [[2, 0], [0, 1/2]], [1, 2, 1/2], [0, 0, 1]⟩
 def exC : Data := ⟨[[[1, 0], [-1, 2]], [[0, 3], [0, -3]]], [[2, 0], [0, 1/2]], [1, 2, 1/2], [1, 0, 1]⟩
@@ -264,6 +288,10 @@ example : (exportDurations [[[1, 0, 4], [-1, 2, 0], [3, 1, 2]]] 30000 [0, 0] [0,
   decide +kernel
 end Instances
 
+-- a SINGLE dataset whose probe labels are not in channel-map order: negative raw indices (open finding, see
+-- known_findings.json); in channel-map order: per-probe indices, none negative
+example : probesOrdered [0, 1, 2, 3] [1, 1, 0, 0] = false ∧ exportRawInd [0, 1, 2, 3] [1, 1, 0, 0] = [-4, -3, 2, 3] := by decide
+example : probesOrdered [3, 0, 5, 4] [0, 0, 1, 1] = true ∧ exportRawInd [3, 0, 5, 4] [0, 0, 1, 1] = [3, 0, 1, 0] := by decide
 example : exportRawInd (mergeChannelMaps [[2, 0, 3, 1], [1, 0], [0, 2, 1]]) (channelProbes [[2, 0, 3, 1], [1, 0], [0, 2, 1]])
     = [2, 0, 3, 1, 1, 0, 0, 2, 1] := by decide
 example : nearestSameProbe [(0, 0), (0, 20), (10, 10), (0, 40), (5, 5)] [0, 0, 1, 0, 1] 1 4 = [1, 0, 3, 2] := by
